@@ -11,6 +11,13 @@ Per generated score (built through the public score API from a JSON spec):
        non-note elements as read back by the interpreter).
   (c)  O2: canonical fingerprint of every timed object / note attribute the property lists,
        before save and after load.   O3: save(load(save(s))) == save(s) byte for byte.
+  model ties of the import side and of the bookkeeping (all evaluated in Coq on the written file and on what
+  load_musicxml returned; a mismatch on a score whose direct oracles pass is MODEL-DRIFT, not a violation):
+  (a-imp)/(c-imp)  Model/C03_Imp.v: the importer's measure reader (imp / imp_part) reads every written measure as
+       the spec reader does, and gives every loaded note its start/duration and every loaded measure its extent;
+  (g)  Model/C03_Grp.v: export_groups writes the <part-list> children written, parse_groups reads the loaded structure;
+  (r)  Model/C03_Rng.v: export_notes writes the slur/tuplet numbers written, import_notes pairs them as loaded;
+  (w)  Model/C03_Rng.v: wexport writes the wedge/dashes numbers written, wimport pairs them as loaded.
 """
 import io
 import json
@@ -58,6 +65,12 @@ W = {
     "pedal": 0.15,        # share of the directions that are sustain pedals (line / sign), also over barlines
     "staves3": 0.1,       # three staves
     "deepgroups": 0.5,    # of the scores with groups: 3-5 parts, groups nested two deep, sibling groups
+    "harmony": 0.25,      # per part: 1-3 harmony elements (roman numeral, chord symbol with kind / bass, cadence, also two at one
+                          # time): do_harmony / _handle_harmony; they take part in the linearisation (O1) and the byte fixpoint (O3)
+    "prints": 0.2,        # per part: a new system / a new page at the start of a later measure (do_prints / _handle_print)
+    "staffdet": 0.1,      # per part: score.Staff objects (what load_kern creates): <staff-details>
+    "tupletpair": 0.35,   # of the parts with tuplets: two tuplets open together (nested or overlapping) over notes of ANY voices,
+                          # so that a tuplet stop can be written before its start
     # constructs that hit a KNOWN FINDING (kept rare; see findings.d/C03.json)
     "k_words": 0.04,      # K1: an unparsed text direction (score.Words) is not exported
     "nopoint": 0.3,       # of the parts: voice 1 is NOT forced to start a note at a mid-measure divisions change, so the
@@ -88,6 +101,7 @@ WORDS = ["cresc.", "dim.", "rit.", "accel.", "Allegro", "adagio", "dolce", "a te
 DASHABLE = ("cresc.", "dim.", "rit.", "accel.", "rall.", "smorzando", "calando", "molto cresc.", "poco a poco cresc.")
 SYMTYPES = ["whole", "half", "quarter", "eighth", "16th", "32nd"]
 TAGORDER = {"barline": 0, "attributes": 1, "direction": 2, "print": 3, "sound": 4, "harmony": 5}
+BARLINE_TAG = {"left": -3, "middle": -2, "right": -1}
 
 
 def midi_of(step, alter, octave):
@@ -459,6 +473,35 @@ def decorate_part(rng, ids, part, segments):
                 ty = rng.choice(["eighth", "16th", "quarter"])
                 objs.append({"k": "tuplet", "a": vn[i]["id"], "b": vn[j]["id"], "an": an, "nn": nn, "at": ty,
                              "nt": rng.choice([ty, ty, "quarter"])})
+        if rng.random() < W["tupletpair"]:
+            times = sorted({n["t"] for n in notes})
+            if len(times) >= 4:
+                t1, t2, t3, t4 = sorted(rng.sample(times, 4))
+                pick = lambda t: rng.choice([n for n in notes if n["t"] == t])
+                n1, n2, n3, n4 = pick(t1), pick(t2), pick(t3), pick(t4)
+                pairs = [(n1, n4), (n2, n3)] if rng.random() < 0.5 else [(n1, n3), (n2, n4)]
+                for a, b in pairs:
+                    an, nn = rng.choice([(3, 2), (5, 4), (6, 4)])
+                    ty = rng.choice(["eighth", "16th"])
+                    objs.append({"k": "tuplet", "a": a["id"], "b": b["id"], "an": an, "nn": nn, "at": ty, "nt": ty})
+    if rng.random() < W["harmony"]:
+        for _ in range(rng.randint(1, 3)):
+            t = rng.randrange(0, end)
+            r = rng.random()
+            if r < 0.4:
+                objs.append({"k": "harm", "kind": "roman", "t": t, "text": rng.choice(["I", "V7", "ii6", "V/V", "viio7", "IV64", "bVI", "i"])})
+            elif r < 0.75:
+                objs.append({"k": "harm", "kind": "chord", "t": t, "root": rng.choice(STEPS),
+                             "ckind": rng.choice([None, "major", "minor", "dominant"]), "bass": rng.choice([None, None, "E", "G"])})
+            else:
+                objs.append({"k": "harm", "kind": "cadence", "t": t, "text": rng.choice(["PAC", "IAC", "HC"])})
+    if rng.random() < W["prints"] and len(mstarts) > 1:
+        for t in sorted(rng.sample(mstarts[1:], rng.randint(1, min(2, len(mstarts) - 1)))):
+            objs.append({"k": "print", "t": t, "page": rng.random() < 0.3})
+    if rng.random() < W["staffdet"]:
+        for st in range(1, part["nstaves"] + 1):
+            if rng.random() < 0.7:
+                objs.append({"k": "staffdet", "t": 0, "number": st, "lines": rng.choice([5, 5, 1, 4])})
     if rng.random() < W["dirs"]:
         ranges = []      # in half of the parts wedges and dashes do not overlap in time
         overlap_ok = rng.random() < W["overlap"]
@@ -649,6 +692,23 @@ def build(spec):
                 p.add(S.Ending(o["n"]), o["t"], o["e"])
             elif k == "bferm":
                 p.add(S.Fermata(o["ref"]), o["t"])
+            elif k == "harm":
+                if o["kind"] == "roman":
+                    p.add(S.RomanNumeral(o["text"]), o["t"])
+                elif o["kind"] == "chord":
+                    p.add(S.ChordSymbol(root=o["root"], kind=o.get("ckind"), bass=o.get("bass")), o["t"])
+                else:
+                    p.add(S.Cadence(o["text"]), o["t"])
+            elif k == "staffdet":
+                p.add(S.Staff(number=o["number"], lines=o["lines"]), o["t"])
+        # new systems / pages at later measure starts, numbered as the importer numbers them
+        pg, sy = 1, 1
+        for o in sorted((o for o in ps["objs"] if o["k"] == "print"), key=lambda o: o["t"]):
+            if o.get("page"):
+                pg += 1
+                p.add(S.Page(pg), o["t"])
+            sy += 1
+            p.add(S.System(sy), o["t"])
         S.set_end_times(p)
         built.append(p)
 
@@ -695,13 +755,27 @@ def parse_written(data):
                     elif unp is not None:
                         mp = midi_of(unp.find("display-step").text, 0, int(unp.find("display-octave").text))
                     ties = {x.get("type") for x in e.findall("tie")}
+                    rng = {}
+                    for kind in ("slur", "tuplet"):
+                        rng[kind] = [(int(x.get("number") or 0), x.get("type")) for x in e.findall("notations/" + kind)]
                     elems.append(("note", e.get("id"), int(d.text) if d is not None else 0, e.find("chord") is not None,
                                   e.find("grace") is not None, int(v.text) if v is not None else 0,
-                                  {"midi": mp, "stop": "stop" in ties, "start": "start" in ties}))
+                                  {"midi": mp, "stop": "stop" in ties, "start": "start" in ties, "ranges": rng}))
                 elif e.tag in ("forward", "backup"):
                     elems.append((e.tag, int(e.find("duration").text)))
                 elif e.tag == "attributes" and e.find("divisions") is not None:
                     elems.append(("divisions", int(e.find("divisions").text)))
+                elif e.tag == "direction":
+                    evs = []
+                    for dt in e.findall("direction-type"):
+                        for x in dt:
+                            if x.tag in ("wedge", "dashes"):
+                                evs.append((x.tag, int(x.get("number") or 1), x.get("type")))
+                    elems.append(("other", TAGORDER["direction"], e.tag, evs))
+                elif e.tag == "barline":
+                    # the location decides where the importer puts the barline's repeat/ending (Model/C03_Imp.v:
+                    # -3 left, -2 middle, -1 right or none); all three sort like the exporter's order 0
+                    elems.append(("other", BARLINE_TAG.get(e.get("location"), -1), e.tag))
                 else:
                     elems.append(("other", TAGORDER.get(e.tag, 9), e.tag))
             measures.append({"number": m.get("number"), "elems": elems})
@@ -918,6 +992,12 @@ def fingerprint(scr, with_voice=True):
         fp[P + "barline_fermatas"] = sorted((o.start.t, o.ref) for o in p.iter_all(S.Fermata)
                                             if not isinstance(o.ref, S.GenericNote))
         fp[P + "note_fermatas"] = sorted((o.start.t, o.ref.id) for o in p.iter_all(S.Fermata) if isinstance(o.ref, S.GenericNote))
+        # not listed by the statement (evidence only; a loss shows as a byte difference in O3)
+        fp["~" + P + "harmony"] = sorted([(o.start.t, type(o).__name__, o.text) for o in p.iter_all(S.Harmony, include_subclasses=True)]
+                                         + [(o.start.t, "Cadence", o.text) for o in p.iter_all(S.Cadence)], key=repr)
+        fp["~" + P + "systems"] = sorted(o.start.t for o in p.iter_all(S.System))
+        fp["~" + P + "pages"] = sorted(o.start.t for o in p.iter_all(S.Page))
+        fp["~" + P + "staff_details"] = sorted((o.start.t, o.number, o.lines) for o in p.iter_all(S.Staff))
     return fp
 
 
@@ -1031,7 +1111,19 @@ def measure_cases(part, written_part, idmap, split_times):
     return cases
 
 
-def part_case(written_part, idmap, expected):
+def import_expectation(loaded_part, idmap):
+    """what load_musicxml really returned for one part, for Model/C03_Imp.v check_import: every note in DOCUMENT order
+    (doc_order is set by the importer per <note> element) with (id, start, duration), and every measure's extent"""
+    import partitura.score as S
+    notes = sorted(loaded_part.iter_all(S.GenericNote, include_subclasses=True), key=lambda n: n.doc_order)
+    if any(n.id not in idmap for n in notes):
+        return None
+    inotes = [ctuple([cz(idmap[n.id]), cz(n.start.t), cz(n.end.t - n.start.t)]) for n in notes]
+    imeas = [ctuple([cz(m.start.t), cz(m.end.t)]) for m in loaded_part.iter_all(S.Measure)]
+    return clist(inotes), clist(imeas)
+
+
+def part_case(written_part, idmap, expected, imp_exp):
     stream = []
     tab = []
     for m in written_part["measures"]:
@@ -1042,7 +1134,183 @@ def part_case(written_part, idmap, expected):
                 info = e[6]
                 tab.append(ctuple([cz(idmap[e[1]]), ctuple([cz(info["midi"]), cbool(info["stop"]), cbool(info["start"])])]))
     exp = [ctuple([cz(p), cq(o), cq(d)]) for (p, o, d) in expected]
-    return ctuple([clist(stream), clist(tab), clist(exp)])
+    return ctuple([clist(stream), clist(tab), clist(exp), imp_exp[0], imp_exp[1]])
+
+
+# ---------------------------------------------------------------------------------------------
+# slur / tuplet numbers for Model/C03_Rng.v
+
+
+def range_cases(part, loaded_part, written_part, idmap):
+    """One Coq case per kind of range that occurs in the part: (rogue, notes in document order with the ranges that
+    stop / start at them in the score's own list order, the (number, is-start) elements written at each note, the
+    (start note, end note) pairs of the loaded part)."""
+    import partitura.score as S
+    byid = {n.id: n for n in part.iter_all(S.GenericNote, include_subclasses=True)}
+    wnotes = [e for m in written_part["measures"] for e in m["elems"] if e[0] == "note"]
+    cases = []
+    for kind, cls, rogue in (("slur", S.Slur, True), ("tuplet", S.Tuplet, False)):
+        rid = {}
+        ns, written = [], []
+        for e in wnotes:
+            n = byid[e[1]]
+            stops = getattr(n, kind + "_stops")
+            starts = getattr(n, kind + "_starts")
+            for r in list(stops) + list(starts):
+                rid.setdefault(id(r), len(rid) + 10)
+            ns.append("(mkRN %s %s %s)" % (ctuple([cz(idmap[e[1]]), cz(n.start.t)]),
+                                           clist([cz(rid[id(r)]) for r in stops]), clist([cz(rid[id(r)]) for r in starts])))
+            evs = e[6]["ranges"][kind]
+            if any(t not in ("start", "stop") for (_, t) in evs):
+                ns = None
+                break
+            written.append(clist([ctuple([cz(num), cbool(t == "start")]) for (num, t) in evs]))
+        if not ns or not rid:
+            continue
+        loaded = []
+        for r in loaded_part.iter_all(cls):
+            a = idmap.get(getattr(r.start_note, "id", None), -1)
+            b = idmap.get(getattr(r.end_note, "id", None), -1)
+            loaded.append(ctuple([cz(a), cz(b)]))
+        # what the case exercises (for the evidence): a stop written before its start, how many ranges are open at once
+        seen, mx, first_stop, first_start = set(), 0, {}, {}
+        for i, e in enumerate(wnotes):
+            n = byid[e[1]]
+            for r in getattr(n, kind + "_stops"):
+                first_stop.setdefault(id(r), i)
+            for r in getattr(n, kind + "_starts"):
+                first_start.setdefault(id(r), i)
+            for r in list(getattr(n, kind + "_stops")) + list(getattr(n, kind + "_starts")):
+                seen.symmetric_difference_update({id(r)})
+            mx = max(mx, len(seen))
+        sbs = any(k in first_start and first_stop[k] < first_start[k] for k in first_stop)
+        same = any(k in first_start and first_stop[k] == first_start[k] for k in first_stop)
+        stats = ((["%s: a stop written at an EARLIER note than its start" % kind] if sbs else [])
+                 + (["%s: start and stop at one note" % kind] if same else [])
+                 + ["%s: up to %s ranges open between notes" % (kind, mx if mx < 3 else "3+")])
+        cases.append((kind, ctuple([cbool(rogue), clist(ns), clist(written), clist(loaded)]), stats))
+    return cases
+
+
+def wedge_cases(part, loaded_part, written_part):
+    """One Coq case per label (wedge, dashes) that occurs in the part: the stop and start events of the score in the order of
+    time (stops first at one time; the order in which do_directions numbers and writes them) as (position, range, is-start),
+    the (number, is-start) attributes in document order, the (start, end) of the loaded directions."""
+    import partitura.score as S
+    from partitura.io.importmusicxml import DYN_DIRECTIONS, PEDAL_DIRECTIONS
+    label_of = lambda d: "wedge" if getattr(d, "wedge", False) else "dashes"
+    evs = []
+    for d in part.iter_all(S.DynamicDirection, include_subclasses=True, mode="ending"):
+        evs.append((d.end.t, 0, d))
+    for d in part.iter_all(S.Direction, include_subclasses=True):
+        text = d.raw_text or d.text
+        if text in PEDAL_DIRECTIONS or text in DYN_DIRECTIONS:
+            continue
+        if getattr(d, "wedge", False) or (isinstance(d, S.DynamicDirection) and d.end is not None):
+            evs.append((d.start.t, 1, d))
+    evs.sort(key=lambda x: (x[0], x[1]))
+    # the written attributes with the position a reader is at
+    wr = {"wedge": [], "dashes": []}
+    start = 0
+    for m in written_part["measures"]:
+        placed, _, mx = interp_measure_t(m["elems"], start)
+        pos_of = dict(placed)
+        for i, e in enumerate(m["elems"]):
+            if e[0] == "other" and len(e) > 3:
+                for (lab, num, ty) in e[3]:
+                    if ty == "continue":
+                        return []
+                    wr[lab].append((pos_of[i], num, ty != "stop"))
+        start = mx
+    cases = []
+    for lab in ("wedge", "dashes"):
+        mine = [(t, k, d) for (t, k, d) in evs if label_of(d) == lab]
+        if not mine:
+            continue
+        rid = {}
+        for (_, _, d) in mine:
+            rid.setdefault(id(d), len(rid) + 20)
+        loaded = []
+        for d in loaded_part.iter_all(S.Direction, include_subclasses=True):
+            text = d.raw_text or d.text
+            if text in PEDAL_DIRECTIONS or text in DYN_DIRECTIONS:
+                continue
+            if lab == "wedge" and getattr(d, "wedge", False):
+                loaded.append((d.start.t, d.end.t if d.end is not None else -1))
+            elif lab == "dashes" and not getattr(d, "wedge", False) and isinstance(d, S.DynamicDirection) and d.end is not None:
+                loaded.append((d.start.t, d.end.t))
+        # (wedges that were never stopped are removed by the importer; a wedge of the loaded part without end can only be
+        # one that was overwritten while open: the model lists it as (start, -1))
+        cases.append((lab, ctuple([clist([ctuple([cz(t), cz(rid[id(d)]), cbool(k == 1)]) for (t, k, d) in mine]),
+                                   clist([ctuple([cz(num), cbool(st)]) for (_, num, st) in wr[lab]]),
+                                   clist([ctuple([cz(a), cz(b)]) for (a, b) in loaded])])))
+    return cases
+
+
+# ---------------------------------------------------------------------------------------------
+# part-group structure for Model/C03_Grp.v (groups are named by their number, parts by the digits of their id)
+
+
+def _pnum(pid):
+    d = "".join(ch for ch in str(pid) if ch.isdigit())
+    return int(d) if d else None
+
+
+def cnode(n):
+    return "(NPart %s)" % cz(n[1]) if n[0] == "p" else "(NGroup %s %s)" % (cz(n[1]), clist([cnode(c) for c in n[2]]))
+
+
+def group_numbers(tree):
+    out = []
+    for n in tree:
+        if n[0] == "g":
+            out.append(n[1])
+            out.extend(group_numbers(n[2]))
+    return out
+
+
+def spec_tree(spec):
+    def mk(node):
+        if isinstance(node, int):
+            return ("p", _pnum(spec["parts"][node]["id"]))
+        return ("g", node.get("number"), [mk(c) for c in node["g"]])
+    return [mk(n) for n in spec["struct"]]
+
+
+def loaded_tree(scr):
+    import partitura.score as S
+
+    def mk(node):
+        if isinstance(node, S.PartGroup):
+            return ("g", node.number, [mk(c) for c in node.children])
+        return ("p", _pnum(node.id))
+    return [mk(n) for n in scr.part_structure]
+
+
+def written_partlist(data):
+    from lxml import etree
+    toks = []
+    pl = etree.fromstring(data).find("part-list")
+    for e in (pl if pl is not None else []):
+        if e.tag == "part-group":
+            num = e.get("number")
+            toks.append("(%s %s)" % ("TStart" if e.get("type") == "start" else "TStop", cz(int(num))) if num and num.lstrip("-").isdigit() else None)
+        elif e.tag == "score-part":
+            toks.append("(TPart %s)" % cz(_pnum(e.get("id"))) if _pnum(e.get("id")) is not None else None)
+    return toks
+
+
+def group_case(spec, data, scr2):
+    """(structure of the score, <part-list> children as written, structure after load) or None when the groups of the
+    spec are not told apart by their numbers (the model names a group by its number)"""
+    tree = spec_tree(spec)
+    nums = group_numbers(tree)
+    toks = written_partlist(data)
+    lt = loaded_tree(scr2)
+    if len(set(nums)) != len(nums) or any(not isinstance(x, int) for x in nums) or None in toks \
+            or any(not isinstance(x, int) for x in group_numbers(lt)):
+        return None
+    return ctuple([clist([cnode(n) for n in tree]), clist(toks), clist([cnode(n) for n in lt])])
 
 
 # ---------------------------------------------------------------------------------------------
@@ -1057,6 +1325,10 @@ class Outcome:
         self.nontrivial = False
         self.unlisted_diffs = 0
         self.unaligned = 0
+        self.group_case = None
+        self.range_cases = []
+        self.range_stats = []
+        self.wedge_cases = []
 
 
 def check_spec(spec, want_coq=True):
@@ -1088,6 +1360,7 @@ def check_spec(spec, want_coq=True):
         if [w["id"] for w in written] != [ps["id"] for ps in spec["parts"]]:
             out.problems.append(("O1", "parts written %s, expected %s" % ([w["id"] for w in written], [ps["id"] for ps in spec["parts"]])))
             return out
+        pending_parts = []
         for ps, wp, part in zip(spec["parts"], written, scr.parts):
             exp = expected_sounding(ps)
             try:
@@ -1113,7 +1386,7 @@ def check_spec(spec, want_coq=True):
                         out.unaligned += 1
                     else:
                         out.measure_cases.extend((ps["id"], i, c) for i, c in enumerate(mc))
-                    out.part_cases.append((ps["id"], part_case(wp, idmap, exp)))
+                    pending_parts.append((ps["id"], wp, idmap, exp, part))
                 else:
                     out.problems.append(("O1", "part %s: written note ids differ from the score's: missing %s extra %s" % (
                         ps["id"], sorted(set(n.id for n in allnotes) - set(ids))[:5], sorted(set(ids) - set(n.id for n in allnotes))[:5])))
@@ -1126,6 +1399,26 @@ def check_spec(spec, want_coq=True):
             return out
         for k, a, b in fp_diff(fp0, fp1):
             out.problems.append(("O2", "%s: before save %r, after load %r" % (k, a, b)))
+        if want_coq:
+            try:
+                out.group_case = group_case(spec, data, scr2)
+            except Exception:
+                out.group_case = None
+        # the Coq part cases need what the importer really returned (check_import)
+        loaded = {p.id: p for p in scr2.parts}
+        for pid, wp, idmap, exp, part in pending_parts:
+            imp_exp = import_expectation(loaded[pid], idmap) if pid in loaded else None
+            if imp_exp is None:
+                out.unaligned += 1
+            else:
+                out.part_cases.append((pid, part_case(wp, idmap, exp, imp_exp)))
+                try:
+                    for (kind, c, stats) in range_cases(part, loaded[pid], wp, idmap):
+                        out.range_cases.append((pid, kind, c))
+                        out.range_stats.extend(stats)
+                    out.wedge_cases.extend((pid, lab, c) for (lab, c) in wedge_cases(part, loaded[pid], wp))
+                except KeyError:
+                    out.unaligned += 1
         out.unlisted_diffs = len(fp_diff(fp0, fp1, limit=1000, unlisted=True))
         # ---- O3
         try:
@@ -1205,7 +1498,10 @@ def features_of(spec):
     f = set()
     for ps in spec["parts"]:
         ks = [o["k"] for o in ps["objs"]]
-        for k in ("grace", "tie", "slur", "tuplet", "rest", "unp", "dir", "tempo", "repeat", "ending", "bferm"):
+        for o in ps["objs"]:
+            if o["k"] == "harm":
+                f.add("harmony:" + o["kind"] + (" with bass" if o.get("bass") else ""))
+        for k in ("grace", "tie", "slur", "tuplet", "rest", "unp", "dir", "tempo", "repeat", "ending", "bferm", "harm", "print", "staffdet"):
             if k in ks:
                 f.add(k)
         for o in ps["objs"]:
@@ -1322,6 +1618,19 @@ def corpus_specs():
         # nested slurs over a barline; part groups nested two deep with a sibling after the inner group
         with_objs(simple_spec([(0, 8, 1), (8, 16, 1), (16, 24, 1), (24, 32, 1)], end=32, measures=[[0, 16, 1, "1"], [16, 32, 2, "2"]]),
                   [{"k": "slur", "a": "n1", "b": "n4"}, {"k": "slur", "a": "n2", "b": "n3"}]),
+        # 3cf8bcb / 5adf9ae: a cadence (with and without a roman numeral at its time) and a chord symbol with a bass note
+        with_objs(simple_spec([(0, 16, 1), (16, 32, 1)], end=32, measures=[[0, 16, 1, "1"], [16, 32, 2, "2"]]),
+                  [{"k": "harm", "kind": "cadence", "t": 4, "text": "PAC"}, {"k": "harm", "kind": "roman", "t": 20, "text": "V7"},
+                   {"k": "harm", "kind": "cadence", "t": 20, "text": "HC"},
+                   {"k": "harm", "kind": "chord", "t": 8, "root": "C", "ckind": "major", "bass": "E"}]),
+        # 8d7c683: staff details; a new page (hence system) at the second measure
+        with_objs(simple_spec([(0, 16, 1), (16, 32, 1)], end=32, measures=[[0, 16, 1, "1"], [16, 32, 2, "2"]]),
+                  [{"k": "staffdet", "t": 0, "number": 1, "lines": 4}, {"k": "print", "t": 16, "page": True}]),
+        # a slur and a tuplet from a note of voice 2 to a later note of voice 1: their stops are written before their starts;
+        # a second slur overlapping the first without nesting
+        with_objs(simple_spec([(0, 8, 1), (8, 16, 1), (0, 4, 2), (4, 16, 2)]),
+                  [{"k": "slur", "a": "n3", "b": "n2"}, {"k": "slur", "a": "n1", "b": "n4"},
+                   {"k": "tuplet", "a": "n3", "b": "n2", "an": 3, "nn": 2, "at": "eighth", "nt": "eighth"}]),
     ]
 
 
@@ -1335,19 +1644,22 @@ def exhaustive_specs():
 
 
 def run(ctx):
-    ctx.rule = ("Scores are built through the public score API from a random JSON spec (1-3 parts, nested part groups, 1-2 staves, "
-                "1-4 voices with gaps, chords incl. unequal durations, mid-measure division/signature/clef changes, pickup and "
-                "irregular measures, tie chains over barlines, slurs, tuplets, grace runs, directions, tempo, repeats/endings, "
-                "fermatas), saved, read by the independent interpreter, loaded and saved again.  One evaluation = one score; "
-                "distinct non-trivial = distinct specs that contain more than one voice or a gap/chord/grace/tie/division change.")
+    ctx.rule = ("Scores are built through the public score API from a random JSON spec (1-5 parts, part groups nested up to three "
+                "deep, 1-3 staves, 1-4 voices with gaps, chords incl. unequal durations, mid-measure division/signature/clef changes, "
+                "pickup and irregular measures, tie chains over barlines, nested/overlapping slurs and tuplets over any voices, grace "
+                "runs, directions incl. overlapping wedges/dashes and pedals, tempo, repeats/endings, fermatas, harmony elements, new "
+                "systems/pages, staff details), saved, read by the independent interpreter, loaded and saved again.  One evaluation = "
+                "one score; distinct non-trivial = distinct specs that contain more than one voice or a gap/chord/grace/tie/division change.")
     ctx.trusted = ["Coq 8.16.1 kernel incl. vm_compute", "lxml parsing of the written bytes into the model's element type (harness/props/c03.py: parse_written)",
-                   "the score builder and the canonical fingerprint in harness/props/c03.py", "Part.iter_all order as the model's input order of the notes of a segment"]
+                   "the score builder and the canonical fingerprint in harness/props/c03.py", "Part.iter_all order as the model's input order of the notes of a segment",
+                   "the extraction of the slur/tuplet/wedge/dashes events and of the part-list tokens from the score and the written file (range_cases, wedge_cases, group_case)"]
     ctx.assumptions = ["generated notes carry unique ids, positive voices and staves; no note crosses a barline or a change of divisions",
                        "voices are compared by O2 only for scores whose voices are sequential (otherwise the exporter must re-assign; the new voices are checked against the model)"]
     register_matchers(ctx)
-    ok, why = ctx.coq_props(expect_min=15)
-    n_scores = 450 if ctx.tier == "quick" else 4000
-    mcases, pcases = [], []
+    ok, why = ctx.coq_props(expect_min=30)
+    ctx.log("phase: Props/C03.v built and checked")
+    n_scores = 400 if ctx.tier == "quick" else 3000
+    mcases, pcases, gcases, rcases, wcases = [], [], [], [], []
     nviol = 0
     fixed = corpus_specs()
     if ctx.tier != "quick":
@@ -1386,23 +1698,34 @@ def run(ctx):
         if o.unaligned:
             ctx.count("coq:parts_without_measure_cases (written measures/divisions segments not alignable with the score)", o.unaligned)
         if not o.problems:
+            if o.group_case is not None:
+                gcases.append((spec, o.group_case))
+            rcases.extend((spec, pid, kind, c) for (pid, kind, c) in o.range_cases)
+            wcases.extend((spec, pid, lab, c) for (pid, lab, c) in o.wedge_cases)
+            for st in o.range_stats:
+                ctx.count("ranges:" + st)
             mcases.extend((spec, pid, mi, c) for (pid, mi, c) in o.measure_cases)
             pcases.extend((spec, pid, c) for (pid, c) in o.part_cases)
+    ctx.log("phase: %d scores through save/load/save and the direct oracles done" % ctx.evaluations)
     ctx.count("coq:measure_cases", len(mcases))
     ctx.count("coq:part_cases", len(pcases))
     if ok:
-        imp = "From PV Require Import Model.C03."
+        imp = "From PV Require Import Model.C03 Model.C03_Imp."
         try:
-            both = ctx.coq_failing("meas", imp, "", [c for (_, _, _, c) in mcases], "check_measure_both", shard=150)
-            # separate the two questions on the cases where the conjunction is false
-            spec_local = ctx.coq_failing("measspec", imp, "", [mcases[i][3] for i in both], "spec_measure_b", shard=150) if both else []
+            both = ctx.coq_failing("meas", imp, "", [c for (_, _, _, c) in mcases], "check_measure_all", shard=260)
+            # separate the questions on the cases where the conjunction is false
+            spec_local = ctx.coq_failing("measspec", imp, "", [mcases[i][3] for i in both], "spec_measure_b", shard=260) if both else []
+            imp_local = ctx.coq_failing("measimp", imp, "", [mcases[i][3] for i in both], "imp_measure_b", shard=260) if both else []
+            mod_local = ctx.coq_failing("measmod", imp, "", [mcases[i][3] for i in both], "check_measure", shard=260) if both else []
+            hyp_local = ctx.coq_failing("meashyp", imp, "", [mcases[i][3] for i in both], "imp_hyp_b", shard=260) if both else []
         except RuntimeError as ex:
             both = None
             ctx.obligation("correspondence (a): model evaluation", False, str(ex)[-800:])
             ctx.violation("Coq could not evaluate the model on the measure cases: " + str(ex)[-600:], {"error": str(ex)[-1500:]}, no_input=True)
         if both is not None:
             spec_fail = [both[j] for j in spec_local]
-            drift = [i for i in both if i not in set(spec_fail)]
+            imp_fail = [both[j] for j in imp_local if both[j] not in set(spec_fail)]
+            drift = [both[j] for j in mod_local if both[j] not in set(spec_fail)]
             ctx.obligation("correspondence (a-spec): the Coq reader interp places every note of the score's measure at its onset with its "
                            "duration and ends at the measure end, on the written stream of %d measures (spec_measure_b)" % len(mcases),
                            not spec_fail, spec_fail[:5])
@@ -1411,21 +1734,34 @@ def run(ctx):
                 ctx.violation("O1 (Coq reader, one measure): read by the independent interpreter the written measure index %d of part %s does "
                               "not place the score's notes at their onsets with their durations / does not have the measure's extent" % (mi, pid),
                               {"kind": "O1-coq-measure", "part": pid, "measure_index": mi, "spec": spec, "coq_case": c[:4000]})
+            # the importer's reader (Model/C03_Imp.v, tied to load_musicxml by check_import below) on the written stream:
+            # the direct oracle O2 passed on these scores (their measures are only here when it did), so a measure the
+            # MODEL reads differently from the spec reader means the model no longer is the importer: drift, no violation
+            ctx.obligation("correspondence (a-imp): the importer's reader imp (Model/C03_Imp.v) reads the written stream of %d measures "
+                           "exactly as the spec reader interp (same objects, order, start, duration) and ends at the measure end "
+                           "(imp_measure_b)" % len(mcases), not imp_fail, imp_fail[:5])
+            if imp_fail:
+                ctx.log("MODEL-DRIFT (no violation): on %d measures that load_musicxml read correctly the importer model reads other times" % len(imp_fail))
             # the tie of the PROVED model to the code: exact document order.  Not a demand of the property (another
             # document order / voice numbering that denotes the same notes is as good), so a mismatch alone is no
             # violation; it is recorded as a failed obligation: the theorems then describe an algorithm that is no
             # longer the exporter's, and only the evaluated checks (a-spec, b, O1-O3) speak for that tree.
             ctx.obligation("correspondence (a-model): lin_measure (Model/C03.v) = written element stream, element for element, and every "
-                           "voice sequential after re-assignment, on %d measures (check_measure)" % len(mcases), not both,
+                           "voice sequential after re-assignment, on %d measures (check_measure)" % len(mcases), not drift and not spec_fail,
                            {"measures_where_only_the_document_order_differs": drift[:5], "measures_failing_the_spec": spec_fail[:5]})
-            ctx.count("coq:measures_equal_to_model_stream", len(mcases) - len(both))
+            ctx.count("coq:measures_equal_to_model_stream", len(mcases) - len(set(drift) | set(spec_fail)))
+            ctx.count("coq:measures_inside_the_hypotheses_of_importer_reads_measure", len(mcases) - len(hyp_local))
+            ctx.count("coq:measures_read_alike_by_importer_model_and_spec_reader", len(mcases) - len(set(imp_fail) | set(spec_fail)))
             if drift:
                 ctx.count("coq:measures_model_drift_only", len(drift))
                 ctx.extra["model_drift"] = ("on %d of %d measures the exporter's element stream is not the model's lin_measure although it denotes "
                                             "the same notes: the proofs about lin_measure no longer describe this tree's exporter" % (len(drift), len(mcases)))
                 ctx.log("MODEL-DRIFT (no violation): %d of %d measures written in another document order than Model/C03.v lin_measure" % (len(drift), len(mcases)))
+        ctx.log("phase: Coq measure cases evaluated")
         try:
-            failing = ctx.coq_failing("part", "From PV Require Import Model.C03.", "", [c for (_, _, c) in pcases], "check_part", shard=40)
+            pall = ctx.coq_failing("part", imp, "", [c for (_, _, c) in pcases], "check_part_all", shard=90)
+            failing = [pall[j] for j in ctx.coq_failing("partsnd", imp, "", [pcases[i][2] for i in pall], "check_part_sound", shard=40)] if pall else []
+            pimp = [pall[j] for j in ctx.coq_failing("partimp", imp, "", [pcases[i][2] for i in pall], "check_part_import", shard=40)] if pall else []
         except RuntimeError as ex:
             failing = None
             ctx.obligation("correspondence (b): interp_q evaluation", False, str(ex)[-800:])
@@ -1436,6 +1772,83 @@ def run(ctx):
                 spec, pid, c = pcases[i]
                 ctx.violation("O1 (Coq interpreter): the written part %s does not denote the score's sounding notes" % pid,
                               {"kind": "O1-coq", "part": pid, "spec": spec})
+            # the tie of the importer model to load_musicxml: imp_part on the written stream = (id, start, duration) of every
+            # loaded note in document order and the extent of every loaded measure.  A mismatch on a score whose direct
+            # oracles passed means the model no longer describes the importer (drift), not that the property fails
+            ctx.obligation("correspondence (c-imp): Coq imp_part (Model/C03_Imp.v) on the written part = what load_musicxml returned "
+                           "(every note's start and duration in document order, every measure's extent) on %d parts" % len(pcases),
+                           not pimp, pimp[:5])
+            if pimp:
+                ctx.count("coq:parts_importer_model_drift", len(pimp))
+                ctx.log("MODEL-DRIFT (no violation): on %d of %d parts load_musicxml returned other note times / measure extents than "
+                        "Model/C03_Imp.v imp_part" % (len(pimp), len(pcases)))
+        # part-group structure: the exporter model writes the <part-list> the code wrote, and the importer model parses it
+        # into the structure load_musicxml returned (Model/C03_Grp.v; groups_roundtrip is about these two functions)
+        ctx.log("phase: Coq part cases evaluated")
+        ctx.count("coq:group_cases", len(gcases))
+        try:
+            gfail = ctx.coq_failing("grp", "From PV Require Import Model.C03_Grp.", "", [c for (_, c) in gcases], "check_groups", shard=300)
+        except RuntimeError as ex:
+            gfail = None
+            ctx.obligation("correspondence (g): part-group model evaluation", False, str(ex)[-800:])
+            ctx.violation("Coq could not evaluate the part-group model: " + str(ex)[-600:], {"error": str(ex)[-1500:]}, no_input=True)
+        if gfail is not None:
+            ctx.obligation("correspondence (g): export_groups (Model/C03_Grp.v) of the score's part structure = the <part-list> children "
+                           "written, and parse_groups of them = the structure load_musicxml returned, on %d scores" % len(gcases),
+                           not gfail, gfail[:5])
+            if gfail:
+                ctx.count("coq:group_model_drift", len(gfail))
+                ctx.log("MODEL-DRIFT (no violation): on %d of %d scores whose part structure survived save/load the <part-list> is not "
+                        "the one Model/C03_Grp.v writes / reads" % (len(gfail), len(gcases)))
+        # slur / tuplet numbers: the exporter model writes the numbers the code wrote at every note, the importer model
+        # pairs the written elements into the slurs / tuplets load_musicxml returned; the hypothesis of
+        # range_numbers_roundtrip (ok_notes_b) holds on the generated part
+        ctx.count("coq:range_cases (parts x {slur, tuplet})", len(rcases))
+        rimp = "From PV Require Import Model.C03_Rng."
+        rdefs = ("Definition pv_hyp (c : bool * list rnote * list (list (Z * bool)) * list (Z * Z)) : bool :=\n"
+                 "  match c with (rogue, ns, _, _) => ok_notes_b rogue ns ost0 end.\n"
+                 "Definition pv_both c := check_ranges c && pv_hyp c.\n")
+        try:
+            rall = ctx.coq_failing("rng", rimp, rdefs, [c for (_, _, _, c) in rcases], "pv_both", shard=120)
+            rfail = [rall[j] for j in ctx.coq_failing("rngm", rimp, rdefs, [rcases[i][3] for i in rall], "check_ranges", shard=120)] if rall else []
+            rhyp = [rall[j] for j in ctx.coq_failing("rngh", rimp, rdefs, [rcases[i][3] for i in rall], "pv_hyp", shard=120)] if rall else []
+        except RuntimeError as ex:
+            rall = None
+            ctx.obligation("correspondence (r): range-number model evaluation", False, str(ex)[-800:])
+            ctx.violation("Coq could not evaluate the range-number model: " + str(ex)[-600:], {"error": str(ex)[-1500:]}, no_input=True)
+        if rall is not None:
+            ctx.obligation("correspondence (r): export_notes (Model/C03_Rng.v) = the slur / tuplet numbers written at every note, and "
+                           "import_notes of the written elements = the slurs / tuplets load_musicxml returned, on %d (part, kind) cases"
+                           % len(rcases), not rfail, [(rcases[i][1], rcases[i][2]) for i in rfail[:5]])
+            ctx.count("coq:range_cases_inside_the_hypothesis_of_range_numbers_roundtrip", len(rcases) - len(rhyp))
+            if rhyp:
+                ctx.count("coq:range_cases_outside_the_hypothesis (a range running backwards in time / started twice)", len(rhyp))
+            if rfail:
+                ctx.count("coq:range_model_drift", len(rfail))
+                ctx.log("MODEL-DRIFT (no violation): on %d of %d (part, kind) cases whose slurs / tuplets survived save/load the numbers "
+                        "written / the pairs read are not those of Model/C03_Rng.v" % (len(rfail), len(rcases)))
+        # wedge / dashes numbers (do_directions / _handle_direction)
+        ctx.count("coq:wedge_cases (parts x {wedge, dashes})", len(wcases))
+        wdefs = ("Definition pv_whyp (c : list wevent * list (Z * bool) * list (Z * Z)) : bool :=\n"
+                 "  match c with (evs, _, _) => ok_wevents_b evs ost0 end.\n"
+                 "Definition pv_wboth c := check_wedges c && pv_whyp c.\n")
+        try:
+            wall = ctx.coq_failing("wdg", rimp, wdefs, [c for (_, _, _, c) in wcases], "pv_wboth", shard=200)
+            wfail = [wall[j] for j in ctx.coq_failing("wdgm", rimp, wdefs, [wcases[i][3] for i in wall], "check_wedges", shard=200)] if wall else []
+            whyp = [wall[j] for j in ctx.coq_failing("wdgh", rimp, wdefs, [wcases[i][3] for i in wall], "pv_whyp", shard=200)] if wall else []
+        except RuntimeError as ex:
+            wall = None
+            ctx.obligation("correspondence (w): wedge-number model evaluation", False, str(ex)[-800:])
+            ctx.violation("Coq could not evaluate the wedge-number model: " + str(ex)[-600:], {"error": str(ex)[-1500:]}, no_input=True)
+        if wall is not None:
+            ctx.obligation("correspondence (w): wexport (Model/C03_Rng.v) = the wedge / dashes numbers written in document order, and wimport "
+                           "of them = the (start, end) of the directions load_musicxml returned, on %d (part, label) cases" % len(wcases),
+                           not wfail, [(wcases[i][1], wcases[i][2]) for i in wfail[:5]])
+            ctx.count("coq:wedge_cases_inside_the_hypothesis_of_wedge_numbers_roundtrip", len(wcases) - len(whyp))
+            if wfail:
+                ctx.count("coq:wedge_model_drift", len(wfail))
+                ctx.log("MODEL-DRIFT (no violation): on %d of %d (part, label) cases whose directions survived save/load the wedge / dashes "
+                        "numbers written / the ranges read are not those of Model/C03_Rng.v" % (len(wfail), len(wcases)))
     else:
         ctx.violation("proof obligations of Props/C03.v no longer check: " + why, {"theorem_or_build": why}, no_input=True)
 
